@@ -127,7 +127,8 @@ class RepeatingEventBase(EventBase):
                 'scheme_id_uri': self.schemeIdUri,
                 'timescale': self.timescale,
                 'event_duration': self.duration,
-                'event_id': event_id,
+                # the id field of an emsg box has 32 bits
+                'event_id': event_id & 0xFFFFFFFF,
                 'value': self.value,
                 'data': data,
             }
